@@ -264,7 +264,9 @@ impl Srv {
             "maintain" => {
                 let mut ex = MaintainMessagesExecutor;
                 ex.execute(&self.shared, MaintainMessagesCommand::verif_new(true, false)).await;
-                json!({"r": "ok"})
+                let d = self.dump_partition(&json!(1), &json!(1), 1).await;
+                let lo = d["segs"].get(0).map(|s| s["start"].clone()).unwrap_or(json!(0));
+                json!({"r": "ok", "lo": lo})
             }
             "evict" => {
                 let system = self.shared.read().await;
